@@ -136,6 +136,7 @@ type FnVC struct {
 	resultNames []string
 	retCount int
 	callOcc  map[string]int
+	callOrd  map[*ssa.CallCommon]int // call-site ordinals in source order, per witness name
 	defers   []*ssa.Defer
 	curBlock *ssa.BasicBlock
 	curPos   token.Pos
@@ -151,6 +152,9 @@ type FnVC struct {
 	freeVars []*ssa.FreeVar
 	freshObjs []freshObj
 	afterHavoc bool
+	closureEnv map[string]Val
+	stableBoxes []stableBox
+	privSlices map[*ssa.Alloc]bool
 	invTouched []touchedObj
 	axioms []string
 	tablesUsed map[string]bool
@@ -441,6 +445,14 @@ func (vc *FnVC) typeFactsIn(st *State, v Val) string {
 			sImp(sEq(sx("sl.base", v.S), "0"), sEq(sx("sl.cap", v.S), "0")))
 	case *types.Interface:
 		f := sAnd(sx("<=", sx("if.ptr", v.S), vc.cur(vc.allocKey())), sImp(sEq(sx("if.tag", v.S), "0"), sEq(sx("if.ptr", v.S), "0")), sx("<=", "0", sx("if.tag", v.S)))
+		if vc.isImmutableIface(v.T) {
+			// syntax-tree interfaces hold non-nil node pointers (asserted where the parser builds them)
+			f = sAnd(f, sImp(sNot(sEq(sx("if.tag", v.S), "0")), sNot(sEq(sx("if.ptr", v.S), "0"))))
+		}
+		if isErrorType(v.T) {
+			// program invariant: a non-nil error never holds a nil pointer (asserted wherever a pointer becomes an error)
+			f = sAnd(f, sImp(sNot(sEq(sx("if.tag", v.S), "0")), sNot(sEq(sx("if.ptr", v.S), "0"))))
+		}
 		return f
 	case *types.Signature:
 		return sx("<=", sx("fn.env", v.S), vc.cur(vc.allocKey()))
@@ -680,8 +692,8 @@ func (vc *FnVC) store(a *Addr, v string) {
 		if f := vc.regimeFacts(v, a.T, 0); f != "true" {
 			vc.assert("elem-invariant", "stored Element is non-nil", f)
 		}
-	} else if a.fieldInv == "nullable" && isRegimeIface(a.T) {
-		vc.assert("elem-invariant", "stored Element is nil or a non-nil pointer", sOr(sEq(sx("if.tag", v), "0"), vc.regimeFacts(v, a.T, 0)))
+	} else if a.fieldInv == "nullable" && vc.sorts.sortOf(a.T) == SIface {
+		vc.assert("elem-invariant", "stored interface value is nil or holds a non-nil pointer", sOr(sEq(sx("if.tag", v), "0"), sNot(sEq(sx("if.ptr", v), "0"))))
 	}
 	switch a.kind {
 	case aObj:
@@ -720,6 +732,9 @@ func (vc *FnVC) store(a *Addr, v string) {
 		vc.set(a.key, sStore(vc.cur(a.key), a.ref, nv))
 	case aMem:
 		vc.frameCheck(a.key, a.ref)
+		if len(a.path) == 0 && a.idx != "" && vc.eng.specs.FieldInvs["elem:"+strings.TrimPrefix(a.key, "Mem$")] == "nonnil" {
+			vc.assert("field-invariant", a.key+" elements stay non-nil", nonNilTerm(v, vc.sorts.sortOf(a.T)))
+		}
 		if a.ownerRef != "" {
 			vc.touchObj(a.ownerRef, a.ownerT)
 		}
@@ -839,7 +854,12 @@ func (vc *FnVC) regimeFacts(term string, t types.Type, depth int) string {
 		k := vc.sorts.sortOf(t)
 		var fs []string
 		for i := 0; i < st.NumFields(); i++ {
-			fs = append(fs, vc.regimeFacts(sx(dtAcc(k, st.Field(i).Name()), term), st.Field(i).Type(), depth+1))
+			ft := st.Field(i).Type()
+			acc := sx(dtAcc(k, st.Field(i).Name()), term)
+			fs = append(fs, vc.regimeFacts(acc, ft, depth+1))
+			if vc.fieldInvOf(t, i) == "nonnil" {
+				fs = append(fs, nonNilTerm(acc, vc.sorts.sortOf(ft)))
+			}
 		}
 		return sAnd(fs...)
 	}
@@ -1030,4 +1050,160 @@ func (vc *FnVC) checkTouched() {
 			vc.assert("type-invariant", fmt.Sprintf("%s.%d", n.Obj().Name(), j+1), sImp(sNot(sEq(t.ref, "0")), p))
 		}
 	}
+}
+
+func isErrorType(t types.Type) bool {
+	return types.Identical(t, types.Universe.Lookup("error").Type())
+}
+
+func (vc *FnVC) isImmutableIface(t types.Type) bool {
+	n, ok := t.(*types.Named)
+	if !ok || n.Obj().Pkg() == nil {
+		return false
+	}
+	if _, isI := n.Underlying().(*types.Interface); !isI {
+		return false
+	}
+	return vc.eng.specs.Immutable[n.Obj().Pkg().Name()+"."+n.Obj().Name()]
+}
+
+type stableBox struct {
+	key string
+	ref string
+}
+
+// stableCaptured: a variable captured by closures (so it lives on the heap) that is assigned exactly once, by the
+// enclosing function, and never by any closure: no call can change it.
+func stableCaptured(a *ssa.Alloc) bool {
+	if !a.Heap {
+		return false
+	}
+	stores := 0
+	for _, r := range *a.Referrers() {
+		switch x := r.(type) {
+		case *ssa.Store:
+			if x.Addr == a {
+				stores++
+			} else {
+				return false // its address is stored somewhere
+			}
+		case *ssa.UnOp, *ssa.DebugRef:
+		case *ssa.MakeClosure:
+			fn := x.Fn.(*ssa.Function)
+			for i, b := range x.Bindings {
+				if b == ssa.Value(a) && i < len(fn.FreeVars) {
+					if closureWrites(fn, fn.FreeVars[i], 0) {
+						return false
+					}
+				}
+			}
+		default:
+			return false
+		}
+	}
+	return stores <= 1
+}
+
+func closureWrites(fn *ssa.Function, fv *ssa.FreeVar, depth int) bool {
+	if depth > 4 {
+		return true
+	}
+	for _, r := range *fv.Referrers() {
+		switch x := r.(type) {
+		case *ssa.Store:
+			if x.Addr == ssa.Value(fv) {
+				return true
+			}
+		case *ssa.UnOp, *ssa.DebugRef:
+		case *ssa.MakeClosure:
+			inner := x.Fn.(*ssa.Function)
+			for i, b := range x.Bindings {
+				if b == ssa.Value(fv) && i < len(inner.FreeVars) && closureWrites(inner, inner.FreeVars[i], depth+1) {
+					return true
+				}
+			}
+		default:
+			return true
+		}
+	}
+	return false
+}
+
+// privateSlice: a local slice variable that only ever holds storage allocated by this function (nil, a literal, make,
+// or append of itself) and whose value never leaves the function before it returns: no callee can reach its elements.
+func privateSlice(a *ssa.Alloc) bool {
+	if a.Heap {
+		return false
+	}
+	if _, ok := a.Type().(*types.Pointer).Elem().Underlying().(*types.Slice); !ok {
+		return false
+	}
+	isLoadOf := func(v ssa.Value) bool {
+		u, ok := v.(*ssa.UnOp)
+		return ok && u.Op == token.MUL && u.X == ssa.Value(a)
+	}
+	for _, r := range *a.Referrers() {
+		switch x := r.(type) {
+		case *ssa.DebugRef:
+		case *ssa.Store:
+			if x.Addr != ssa.Value(a) {
+				return false
+			}
+			switch v := x.Val.(type) {
+			case *ssa.Const:
+				if v.Value != nil {
+					return false
+				}
+			case *ssa.Call:
+				b, ok := v.Call.Value.(*ssa.Builtin)
+				if !ok || b.Name() != "append" || !isLoadOf(v.Call.Args[0]) {
+					return false
+				}
+			case *ssa.Slice:
+				al, ok := v.X.(*ssa.Alloc)
+				if !ok || !al.Heap {
+					return false
+				}
+			case *ssa.MakeSlice:
+			default:
+				return false
+			}
+		case *ssa.UnOp:
+			// every use of the loaded value
+			for _, ur := range *x.Referrers() {
+				switch y := ur.(type) {
+				case *ssa.Store:
+					// spilling the value into the (unnamed) result cell just before returning
+					ra, ok := y.Addr.(*ssa.Alloc)
+					if !ok || ra.Comment != "" || ra.Heap || y.Val != ssa.Value(x) {
+						return false
+					}
+				case *ssa.DebugRef, *ssa.Return, *ssa.IndexAddr, *ssa.Slice:
+					if sl, ok := y.(*ssa.Slice); ok {
+						_ = sl
+						return false // a sub-slice may escape
+					}
+				case *ssa.Call:
+					b, ok := y.Call.Value.(*ssa.Builtin)
+					if !ok {
+						return false
+					}
+					switch b.Name() {
+					case "len", "cap":
+					case "append":
+						if y.Call.Args[0] != ssa.Value(x) {
+							return false
+						}
+					default:
+						return false
+					}
+				default:
+					return false
+				}
+			}
+		default:
+			return false
+		}
+	}
+	return true
 }
